@@ -113,6 +113,9 @@ SCHEDULES = [
 ]
 
 
+SCHED_BY_NAME = {s.name: s for s in SCHEDULES}
+
+
 class Snapshot:
     """Observations after a chunk / at the end of a path."""
 
@@ -414,15 +417,6 @@ class StreamModel:
         return outs
 
 
-def _exc_name(interp, exc):
-    cls = interp.exc_class_of(exc)
-    if isinstance(cls, ClassRef):
-        return cls.name
-    if cls is not None:
-        return cls.name
-    return show(exc)
-
-    # -- exploration -----------------------------------------------------------
     def explore(self, sched, observe=None, max_paths=20000):
         """Paths of: construct, eat n chunks, finish.  Outcome.state is the
         final inspector object graph (per path) plus per-chunk snapshots."""
@@ -604,3 +598,14 @@ class ImageVal:
         if isinstance(src, T) and src.op == 'tail':
             return 0
         raise CannotEval('unknown byte source %s' % show(src))
+
+
+def _exc_name(interp, exc):
+    cls = interp.exc_class_of(exc)
+    if isinstance(cls, ClassRef):
+        return cls.name
+    if cls is not None:
+        return cls.name
+    return show(exc)
+
+    # -- exploration -----------------------------------------------------------
